@@ -176,6 +176,22 @@ func genScalar(t *rapid.T, gi *GroupInfo, label string) SVal {
 // xofStream is a deterministic cipher.Stream derived from rapid-drawn bytes.
 func xofStream(seed []byte) cipher.Stream { return blake2xb.New(seed) }
 
+// uniformInt draws an integer uniformly from [lo,hi].  rapid's own integer generators are biased
+// towards small magnitudes (a geometric choice of the bit length), which is what one wants for
+// sizes but not for a position inside a structure: the tail of a 4096-byte message or the last 16
+// bytes of a ciphertext would be visited far less often than the head.  The draw is still a rapid
+// draw (replayable, shrinkable - towards an arbitrary but fixed position).
+func uniformInt(t *rapid.T, lo, hi int, label string) int {
+	if hi <= lo {
+		return lo
+	}
+	z := rapid.Uint64().Draw(t, label) + 0x9e3779b97f4a7c15
+	z = (z ^ (z >> 30)) * 0xbf58476d1ce4e5b9
+	z = (z ^ (z >> 27)) * 0x94d049bb133111eb
+	z ^= z >> 31
+	return lo + int(z%uint64(hi-lo+1))
+}
+
 func genSeed(t *rapid.T, label string) []byte {
 	return rapid.SliceOfN(rapid.Byte(), 16, 16).Draw(t, label)
 }
@@ -196,6 +212,10 @@ func markVT(gi *GroupInfo, p kyber.Point) kyber.Point {
 	}
 	return p
 }
+
+// newPoint: a fresh receiver of gi; for the AllowVarTime instance the RECEIVER carries the flag
+// (the variable-time code paths are chosen by the receiver, not by the operands).
+func newPoint(gi *GroupInfo) kyber.Point { return markVT(gi, gi.G.Point()) }
 
 func basePoint(gi *GroupInfo) kyber.Point {
 	if gi.HasBase {
